@@ -53,12 +53,22 @@ class OptCase:
                 for k_ in ("n_sensors", "n_const_sensors"):
                     if isinstance(kw.get(k_), int):
                         kw[k_] = (np.int64 if self.meta["np_ints"] == 64 else np.int32)(kw[k_])
-            if self.meta.get("omit_all_sensors") and kw.get("constraint_option") == "predetermined":
-                kw.pop("all_sensors", None)       # `predetermined` never reads the unconstrained ranking: the keyword is optional
+            if self.omits_all_sensors():
+                kw.pop("all_sensors", None)       # the keyword is optional where the rule can do without the unconstrained ranking
             return GQR(), kw
         raise ValueError(self.kind)
 
     _toggle = [0]
+
+    def omits_all_sensors(self):
+        """`predetermined` never reads the unconstrained ranking; `exact_n` with an allowance ≥ 1 treats a missing ranking as
+        "no region sensor ranked yet" and forces the region picks at the end (with allowance 0 it would hand over to max_n,
+        which cannot do without the ranking)"""
+        g = self.gqr
+        if self.kind != "gqr" or not self.meta.get("omit_all_sensors"):
+            return False
+        o = g.get("constraint_option")
+        return o == "predetermined" or (o == "exact_n" and int(g.get("n_const_sensors", 0)) >= 1 and g.get("n_sensors") not in (None, 0))
 
     def run_real(self):
         """Returns dict(ranking, offsets, dlens(list per step) , taps...).
@@ -144,6 +154,8 @@ class OptCase:
         L = [int(x) for x in (g.get("idx_constrained", []) if self.kind == "gqr" else [])]
         s = int(g.get("n_const_sensors", 0)) if self.kind == "gqr" else 0
         A = [int(x) for x in (g.get("all_sensors", []) if self.kind == "gqr" else [])]
+        if self.omits_all_sensors():
+            A = []
         ns = g.get("n_sensors", None) if self.kind == "gqr" else None
         return f"{opt} {C.enc_nats(L)} {s} {C.enc_nats(A)} {C.enc_optnat(ns)}"
 
